@@ -27,7 +27,7 @@ ASSUMPTIONS = [
     "AsyncFIFOBuffered may hold in its (read-domain) output register stays visible at most until the second read-clock edge "
     "under reset; nothing is accepted at a write edge while it is asserted; `r_rst` must have been seen asserted before the "
     "reset is released. The "
-    "level outputs are not judged from the rise until 4 edges of each clock after the release. A reset released sooner than "
+    "level outputs must stay within 0..depth throughout. A reset released sooner than "
     "that (possible only in a minimised replay) ends the judged part of the run.",
     "Liveness bound used: after writes stop, 8 + 4*depth full cycles of each clock, alternating, reader draining.",
 ]
@@ -193,7 +193,7 @@ def run_case(case):
                     raise Violation("r_data_not_oldest", step, {"r_data": r_data, "expected": dq[0], "held": held})
             if w_rdy and held >= depth:
                 raise Violation("w_rdy_when_full", step, {"held": held, "depth": depth})
-            if not R["window"] and not (0 <= r_level <= depth and 0 <= w_level <= depth):
+            if not (0 <= r_level <= depth and 0 <= w_level <= depth):
                 raise Violation("level_out_of_range", step, {"r_level": r_level, "w_level": w_level, "depth": depth})
 
         def do_step(i, st, obs):
